@@ -408,6 +408,31 @@ AttrType(g, n, a) == LET xs == Asgs(Rule(g, n).body, a)
                          ts == {TypeOfAsg(xs[i]) : i \in 1..Len(xs)}
                      IN IF Cardinality(ts) = 1 THEN CHOOSE t \in ts : TRUE ELSE "OBJECT"
 
+\* line and column (both 1-based) of the 0-based offset p0 in text s
+LineOf(s, p0) == 1 + Cardinality({i \in 1..p0 : s[i] = NL})
+ColOf(s, p0) == LET N == {i \in 1..p0 : s[i] = NL}
+                    l == IF N = {} THEN 0 ELSE CHOOSE i \in N : \A j \in N : i >= j
+                IN p0 - l + 1
+
+\* which rules can be the result of an expression of an abstract rule: in a sequence the first
+\* part that refers to a common/abstract rule, in a choice any alternative
+RECURSIVE ResultRefs(_,_)
+RECURSIVE ResultRefsSeq(_,_,_)
+ResultRefsSeq(g, es, i) == IF i > Len(es) THEN {}
+                           ELSE LET X == ResultRefs(g, es[i]) IN IF X # {} THEN X ELSE ResultRefsSeq(g, es, i+1)
+ResultRefs(g, e) ==
+  CASE e.k = "ref" -> IF e.name \notin BaseNames /\ Kind(g, e.name) # "match" THEN {e.name} ELSE {}
+    [] e.k = "alt" -> UNION {ResultRefs(g, e.es[i]) : i \in 1..Len(e.es)}
+    [] e.k \in {"seq", "unord"} -> ResultRefsSeq(g, e.es, 1)
+    [] e.k \in {"opt", "star", "plus"} -> ResultRefs(g, e.e)
+    [] OTHER -> {}
+InhBy(g, r) == IF Kind(g, r) = "abstract" THEN ResultRefs(g, Rule(g, r).body) ELSE {}
+RECURSIVE Below(_,_)
+Below(g, S) == LET T == S \cup UNION {InhBy(g, r) : r \in S} IN IF T = S THEN S ELSE Below(g, T)
+\* textx_isinstance(object of rule c, R): c is R, or reachable from R through abstract-rule alternatives (or R is OBJECT)
+Conforms(g, cl, r) == cl \in Below(g, {r})
+ConfPairs(g) == {<<cl, r>> \in Common(g) \X Names(g) : Conforms(g, cl, r)}
+
 ----------------------------------------------------------------------------
 \* values
 VNone == [t |-> "none"]
@@ -545,7 +570,8 @@ BuildNode(E, n) ==
                   prs == ApplyAsgs(E, n.name, n.kids, 1, init)
               IN IF prs # <<>> /\ prs[1][1] = "!" THEN prs[1][2]
                  ELSE [t |-> "obj", cls |-> n.name, attrs |-> prs,
-                       s |-> NodeStart(n) - 1, e |-> NodeEnd(n) - 1]
+                       s |-> NodeStart(n) - 1, e |-> NodeEnd(n) - 1,
+                       ln |-> LineOf(E.s, NodeStart(n) - 1), co |-> ColOf(E.s, NodeStart(n) - 1)]
 
 ----------------------------------------------------------------------------
 \* The fragment on which the documented semantics is unambiguous (DESIGN.md section 7).
@@ -625,8 +651,23 @@ WellFormedRule(g, ru) ==
      \* an attribute assigned with ?= is assigned exactly once and with no other operator
      /\ \A a \in A : a.op = "?=" => Cardinality({b \in A : b.attr = a.attr}) = 1
 
+\* An abstract-rule alternative without a common/abstract reference yields "the concatenated text".
+\* The documentation speaks of "a concatenation of all match rule results"; whether plain string and
+\* regex matches standing next to match-rule references take part is not said, so such alternatives are
+\* judged only when they consist of rule references only or of plain matches only.
+PureMatchAlt(g, e) ==
+  ResultRefs(g, e) = {} /\ e.k = "seq" =>
+    /\ \A i \in 1..Len(e.es) : e.es[i].k \in {"str", "re", "ref"} /\ ~e.es[i].sup
+    /\ \/ \A i \in 1..Len(e.es) : e.es[i].k = "ref"
+       \/ \A i \in 1..Len(e.es) : e.es[i].k \in {"str", "re"}
+AbstractAltsPure(g, ru) ==
+  Kind(g, ru.name) = "abstract" =>
+    IF ru.body.k = "alt" THEN \A i \in 1..Len(ru.body.es) : PureMatchAlt(g, ru.body.es[i])
+    ELSE PureMatchAlt(g, ru.body)
+
 WellFormed(g) ==
   /\ \A i \in 1..Len(g.rules) : WellFormedRule(g, g.rules[i])
+  /\ \A i \in 1..Len(g.rules) : AbstractAltsPure(g, g.rules[i])
   /\ \A i, j \in 1..Len(g.rules) : g.rules[i].name = g.rules[j].name => i = j
   /\ ~LeftRecursive(g)
   /\ HasRule(g, "Comment") => LET c == Rule(g, "Comment").body IN c.k = "re" /\ ~c.sup /\ ~(c.min = 0 /\ c.pre = <<>> /\ c.post = <<>>)
